@@ -86,7 +86,7 @@ def e4_rehost():
         rel = "rustemo/src/" + src
         out["rt/" + dst[:-3]] = (slicer.read(rel), rel)
     lr = slicer.read(LRPARSER)
-    out["lr_loop_body"] = (slicer.block_after(lr, r"fn parse_with_context\s*\(", r"\bloop\b", "parse_with_context/loop"), LRPARSER)
+    out["lr_from_state"] = ("{\n" + slicer.region_to_block_end(lr, r"fn parse_with_context\s*\(", r"let mut state = parse_stack\.state\(\);", r"\bloop\b", "parse_with_context/from state") + "\n}\n", LRPARSER)
     return out
 
 
